@@ -196,6 +196,23 @@ def finish(prop, tier, seed, k1, tres, t0, extra_errors=(), partial=False):
             o['source'] = r['key']
             o['bounded'] = bool(r.get('bounded'))
             obligations.append(o)
+    # preconditions: a `requires` clause of a contract is an obligation at every call site under contract (call-pre[...]); at
+    # an entry point -- a function no contracted caller of this check calls -- it is an ASSUMPTION about the caller (well-formed
+    # input, a consistent object), and is listed as one
+    established = set()
+    for o in obligations:
+        m = re.search(r':call-pre\[([^\]:]+(?:\.[^\]:]+)*):(\d+)\]', o['name'])
+        if m:
+            established.add((m.group(1), int(m.group(2))))
+    for r in k1:
+        rel, _, qn = r['key'].partition(':')
+        c = contracts.REGISTRY.get((rel, qn))
+        if c is None or c.mode != 'check' or c.inline:
+            continue
+        for i, clause in enumerate(c.requires):
+            if (qn, i) not in established:
+                assumptions.add('%s: ENTRY PRECONDITION (no caller under contract in this check establishes it; assumed of the caller): %s'
+                                % (r['key'], clause))
     for r in tres:
         if r.get('error'):
             errors.append('%s: %s' % (r['name'], r['error']))
